@@ -60,9 +60,9 @@ def checkPkg : Rd Verdict := do
 def checkFwd : Rd Verdict := do
   let tap ← rdNat; let derived ← rdNat; let isInt ← rdNat; let bs ← rdNat; let h ← rdHdr
   let xs ← rdPer h.np; let rs ← rdPer h.np
-  let feats := ["fwd", tapName tap, if derived != 0 then "derived" else "direct",
+  let feats := ["fwd", tapName tap, if derived == 2 then "derived_both" else if derived != 0 then "derived" else "direct",
                 if isInt != 0 then "int" else "double", s!"bs{bs}"] ++ hdrFeats h
-  let base := s!"C03/fwd/{tapName tap}" ++ (if derived != 0 then "/derived" else "") ++
+  let base := s!"C03/fwd/{tapName tap}" ++ (if derived == 2 then "/derived_both" else if derived != 0 then "/derived" else "") ++
               s!"/{if isInt != 0 then "int" else "double"}" ++ (if bs > 1 then "/block" else "")
   let x := xs.map (blocks bs)
   for r in List.range h.np do
@@ -84,8 +84,8 @@ def checkRev : Rd Verdict := do
   let tap ← rdNat; let derived ← rdNat; let fn ← rdNat; let bs ← rdNat; let h ← rdHdr
   let ys ← rdPer h.np; let inits ← rdPer h.np; let rs ← rdPer h.np
   let fnName := match fn with | 0 => "sum" | 1 => "max" | _ => "select"
-  let feats := ["rev", tapName tap, if derived != 0 then "derived" else "direct", fnName, s!"bs{bs}"] ++ hdrFeats h
-  let base := s!"C03/rev/{tapName tap}" ++ (if derived != 0 then "/derived" else "") ++ s!"/{fnName}" ++
+  let feats := ["rev", tapName tap, if derived == 2 then "derived_both" else if derived != 0 then "derived" else "direct", fnName, s!"bs{bs}"] ++ hdrFeats h
+  let base := s!"C03/rev/{tapName tap}" ++ (if derived == 2 then "/derived_both" else if derived != 0 then "/derived" else "") ++ s!"/{fnName}" ++
               (if bs > 1 then "/block" else "")
   let y := ys.map (blocks bs)
   for p in List.range h.np do
